@@ -17,7 +17,7 @@ pub fn plan() -> Plan {
         meta: Meta {
             property: "C09",
             level: "exploration",
-            rule: "differential: for each enumerated shape a header multiset is pushed into the real in-memory index (H3 probe); get_latest / get_all_with_deletion_marker / count are recorded for every present key and for absent keys below, between every adjacent pair and above; the index is dumped and the same queries are repeated on the B+tree file (must be identical tuples in identical order), after re-opening the file, and after loading it back into memory; answers are also compared with the harness' own expectation (ts desc, push order desc, cut after first marker) and the file is parsed independently (sorted leaves, hash, count). Shapes: key lengths {1,2,3,4,7,8,16,32,71,128,199,455,967,1000} x key counts sweeping through every last-leaf remainder and 1..3+ inner levels x version runs of length {B-1,B,B+1,2B,7B} (B = headers per 4 KiB block) at first/middle/last key, random runs, timestamp ties, markers at top/middle/bottom; sequential and random keys. A shape is non-trivial when the tree has >=1 inner node or a run longer than one block; distinct = hash of the shape description.",
+            rule: "differential: for each enumerated shape a header multiset is pushed into the real in-memory index (H3 probe); get_latest / get_all_with_deletion_marker / count are recorded for every present key and for absent keys below, between every adjacent pair and above; the index is dumped and the same queries are repeated on the B+tree file (must be identical tuples in identical order), after re-opening the file, and after loading it back into memory; answers are also compared with the harness' own expectation (ts desc, push order desc, cut after first marker) and the file is parsed independently (sorted leaves, hash, count). Shapes: key lengths {1,2,3,4,7,8,16,32,34,71,128,184,199,455,967,1000} (4096 mod header size = 0 for 7/71/199/455/967, = 1 for 8/34, = size-1 for 184) x key counts sweeping through every last-leaf remainder and 1..3+ inner levels x version runs of length {B-1,B,B+1,2B,7B} (B = headers per 4 KiB block) at first/middle/last key, random runs, timestamp ties, markers at top/middle/bottom; sequential and random keys. A shape is non-trivial when the tree has >=1 inner node or a run longer than one block; distinct = hash of the shape description.",
             assumptions: vec!["the probe builds headers with the same layout arithmetic as the write path (blob_offset / checksum patching)", "verdict holds for the shapes enumerated for this seed"],
         },
         shards: 16,
@@ -337,7 +337,9 @@ macro_rules! dispatch {
             16 => $f::<16>($($args),*).await,
             32 => $f::<32>($($args),*).await,
             71 => $f::<71>($($args),*).await,
+            34 => $f::<34>($($args),*).await,
             128 => $f::<128>($($args),*).await,
+            184 => $f::<184>($($args),*).await,
             199 => $f::<199>($($args),*).await,
             455 => $f::<455>($($args),*).await,
             967 => $f::<967>($($args),*).await,
@@ -346,7 +348,7 @@ macro_rules! dispatch {
     };
 }
 
-pub const KEYLENS: [usize; 14] = [1, 2, 3, 4, 7, 8, 16, 32, 71, 128, 199, 455, 967, 1000];
+pub const KEYLENS: [usize; 16] = [1, 2, 3, 4, 7, 8, 16, 32, 34, 71, 128, 184, 199, 455, 967, 1000];
 
 fn shapes_for(keylen: usize, thorough: bool, rng: &mut Rng) -> Vec<Shape> {
     let rhs = 57 + keylen;
@@ -356,12 +358,12 @@ fn shapes_for(keylen: usize, thorough: bool, rng: &mut Rng) -> Vec<Shape> {
     let mut out = Vec::new();
     let ones = |n: usize| -> Vec<Vec<(u64, bool)>> { (0..n).map(|i| vec![(1 + (i as u64 % 3), false)]).collect() };
     // key-count sweep (1 version each): every remainder of the last leaf for small trees
-    let small_max = (3 * b + 2).min(if thorough { 400 } else { 150 }).min(max_keys_by_len);
+    let small_max = (3 * b + 2).min(if thorough { 1200 } else { 200 }).min(max_keys_by_len);
     for n in 1..=small_max {
         out.push(Shape { keylen, keys: ones(n), random_keys: n % 2 == 0, bloom: n % 3 == 0, desc: format!("L{}:ones:n{}", keylen, n) });
     }
     // larger counts through the inner-level thresholds: leaves = ceil(n / b); levels change at fan, fan^2, ...
-    let cap = if thorough { 60_000 } else { 6_000 };
+    let cap = if thorough { 200_000 } else { 20_000 };
     let mut thresholds = Vec::new();
     let mut leaves = fan;
     for _ in 0..3 {
@@ -435,7 +437,7 @@ fn shapes_for(keylen: usize, thorough: bool, rng: &mut Rng) -> Vec<Shape> {
         }
     }
     // random shapes
-    let nrand = if thorough { 40 } else { 8 };
+    let nrand = if thorough { 400 } else { 40 };
     for i in 0..nrand {
         let nk = rng.range(1, (6 * bb as u64).min(max_keys_by_len as u64)) as usize;
         let keys: Vec<Vec<(u64, bool)>> = (0..nk)
